@@ -47,15 +47,16 @@ class Relation(object):
         self.name, self.transform, self.relate, self.extra_pre = name, transform, relate, extra_pre
 
 
-def relational_obligations(contract, size, rel, contract2=None):
+def relational_obligations(contract, size, rel, contract2=None, values=None, subst=None, want_runs=False):
     reset_fresh()
     mod = source.module(contract.rel)
     fdef = mod.func(contract.func, contract.cls)
     c2 = contract2 or contract
     mod2 = source.module(c2.rel)
     fdef2 = mod2.func(c2.func, c2.cls)
-    st, pre, ctx = contract.setup('B', size)
+    st, pre, ctx = contract.setup('B', size, values=values) if values is not None else contract.setup('B', size)
     pre = [p for p in pre if p is not True]
+    runs = []
     if rel.extra_pre is not None:
         pre += [p for p in rel.extra_pre(ctx) if p is not True]
     if any(p is False for p in pre):
@@ -85,6 +86,12 @@ def relational_obligations(contract, size, rel, contract2=None):
         n1 += 1
         out1 = ret_lists(s1, o1[1])
         args2, extra = rel.transform(ctx, args1)
+        if subst:
+            args2 = {k: subst_value(v, subst) for k, v in args2.items()}
+            extra = [subst_value(h, subst) for h in extra]
+            extra = [h for h in extra if h is not True]
+            if any(h is False for h in extra):
+                continue
         e2 = engine(mod2, c2)
         pc_start = PC(pc1.hyp() + [h for h in extra if h is not True])
         if not e2.feasible(pc_start):
@@ -104,13 +111,36 @@ def relational_obligations(contract, size, rel, contract2=None):
                 continue
             n2 += 1
             out2 = ret_lists(s2b, o2[1])
+            runs.append((args1, out1, args2, out2, pc2))
             for nm, f in rel.relate(ctx, out1, out2, args1, args2):
                 if f is True:
                     f = z3.BoolVal(True)
                 if f is False:
                     f = z3.BoolVal(False)
                 obls.append(Obl("%s.%s" % (rel.name, nm), pc2.hyp(), f, 'post'))
-    return obls, dict(paths=n1, pairs=n2)
+    st_ = dict(paths=n1, pairs=n2)
+    if want_runs:
+        st_['_runs'] = runs
+    return obls, st_
+
+
+def subst_value(v, subst):
+    """replace auxiliary symbols (shift, MRTS2, ...) by model values"""
+    if isinstance(v, list):
+        return [subst_value(x, subst) for x in v]
+    if isinstance(v, NF):
+        return NF(subst_value(v.term, subst), subst_value(v.fin, subst))
+    if is_z3(v):
+        r = z3.simplify(z3.substitute(v, *[(z3.Real(k), toR(x)) for k, x in subst.items()]))
+        if z3.is_rational_value(r):
+            f = r.as_fraction()
+            return int(f) if f.denominator == 1 else f
+        if z3.is_true(r):
+            return True
+        if z3.is_false(r):
+            return False
+        return r
+    return v
 
 
 class RelGroup(Group):
@@ -163,3 +193,60 @@ class RelGroup(Group):
         stats['obligations'] = len(obls)
         stats['undecided_not_counted'] = undecided
         return jobs, stats
+
+
+AUX_SYMBOLS = ('shift', 'MRTS2', 'max_tau2')
+
+
+def confirm_relational(group, size, rname, model):
+    """replay of a refuted relational obligation: both runs on the real code (CPython) and exactly"""
+    from . import confirm as C
+    from .harness import exact
+    rel = [r for r in group.relations if r.name == rname][0]
+    c1, c2 = group.contract, (group.contract2 or group.contract)
+    ctx = c1.setup('B', size)[2]
+    values = C.inputs_from_model(ctx.inputs, model)
+    subst = {k: exact(float(C.parse_num(model[k]))) for k in AUX_SYMBOLS if k in model}
+    obls, stats = relational_obligations(c1, size, rel, group.contract2, values=values, subst=subst, want_runs=True)
+    failed = []
+    for o in obls:
+        if all(C.truth(subst_value(h, subst)) is True for h in o.hyp):
+            if C.truth(subst_value(o.goal, subst)) is False:
+                failed.append(o.name)
+    out = dict(values=values, aux=dict((k, float(v)) for k, v in subst.items()), failed=failed, relation=rname)
+    runs = [r for r in stats.get('_runs', []) if all(C.truth(subst_value(h, subst)) is True for h in r[4].hyp())]
+    if not runs:
+        out['verdict'] = 'holds' if not failed else 'undecided'
+        return out
+    a1, o1, a2, o2, _ = runs[0]
+
+    def fl(v):
+        v = subst_value(v, subst)
+        if isinstance(v, list):
+            return {'__array__': [float(split(x)[0]) if not isinstance(x, NF) else float('nan') for x in v]}
+        if isinstance(v, bool):
+            return v
+        return float(v)
+    ctx2 = c2.setup('B', size)[2] if hasattr(c2, 'setup') else None
+    order1 = ctx.argorder
+    import ast as _ast
+    from . import source
+    f2 = source.module(c2.rel).func(c2.func, c2.cls)
+    order2 = [a.arg for a in f2.args.args if a.arg in a2]
+    calls = [dict(rel=c1.rel, func=c1.func, cls=c1.cls, args=[fl(a1[p]) for p in order1], compiled_standin=c1.rel.endswith('.pyx')),
+             dict(rel=c2.rel, func=c2.func, cls=c2.cls, args=[fl(a2[p]) for p in order2], compiled_standin=c2.rel.endswith('.pyx'))]
+    real = C.run_real(calls)
+    ex1 = C.exact_value(State(), [[subst_value(x, subst) for x in l] if isinstance(l, list) else subst_value(l, subst) for l in (o1 if isinstance(o1, list) else [o1])])
+    ex2 = C.exact_value(State(), [[subst_value(x, subst) for x in l] if isinstance(l, list) else subst_value(l, subst) for l in (o2 if isinstance(o2, list) else [o2])])
+    ok = True
+    for r_, ex in zip(real, (ex1, ex2)):
+        if not r_['ok']:
+            ok = False
+            continue
+        rv = C.real_value(r_['result'])
+        if not isinstance(rv, list):
+            rv = [rv]
+        ok = ok and C.agree(ex, rv)
+    out.update(real=real, exact=[C.jsonable(ex1), C.jsonable(ex2)], consistent=ok, calls=calls)
+    out['verdict'] = 'mismatch' if not ok else ('violation' if failed else 'holds')
+    return out
